@@ -237,6 +237,8 @@ def main(run, tier):
                        'statements); the look-behind state machine of the lexer by transition contracts on the real AST; the decision '
                        '"offending token" itself is ply\'s error detection (assumed); bounded differential stand-in')
     run.floor = 15
+    from . import parsefwd
+    parsefwd.add(run, tier)
     from . import attrobl
     import contracts.frames as _fr
     attrobl.frame_obligations(run, _fr.LEXER_STATE)
